@@ -1,10 +1,10 @@
 INIT Init
 NEXT Next
 CONSTANTS
-  Dev = {"skip_only_function"}
-  Kinds = {"sig"}
+  Dev = {"gen_union_no_prefix"}
+  Kinds = {"api"}
   Strict = FALSE
   Full = FALSE
   MaxCnt = 1
-INVARIANT BuildEncodes
+INVARIANT InvApi
 CHECK_DEADLOCK FALSE
